@@ -37,6 +37,15 @@ SHAPED = [
     mrec("e", "xy"),                  # URI prefix nested inside/around x (no match, but the trie must order them)
 ]
 RECS = PLAIN + SHAPED
+# a second, small alphabet explored in its own BFS (keeps the main one affordable)
+AUX_RECS = [
+    mrec("ß", "v"),                   # case variants of different length: "ß".casefold() == "SS".casefold() == "ss"
+    mrec("SS", "V"),
+    mrec("ss", "v2", ["k"]),
+    mrec("h", "hu", [], [], "(["),    # an uncompilable pattern is legal input (patterns are not interpreted here)
+    mrec("a", "x"),
+    mrec("A", "hu"),
+]
 
 INITS = [
     [],
@@ -47,9 +56,9 @@ INITS = [
 ]
 
 
-def all_ops(tier):
+def all_ops(tier, aux=False):
     ops = []
-    for r in RECS:
+    for r in (AUX_RECS if aux else RECS):
         for cs in (True, False):
             for merge in (False, True):
                 ops.append({"rec": rec_to_json(r), "cs": cs, "merge": merge, "via": "add_record"})
@@ -58,8 +67,8 @@ def all_ops(tier):
     return ops
 
 
-QUERY_PREFIXES = ["a", "A", "b", "c", "d", "e", "f", "g", "", "zz"]
-QUERY_URIS = ["x", "X", "y", "z", "w", "xy", "q", "xyzq"]
+QUERY_PREFIXES = ["a", "A", "b", "c", "d", "e", "f", "g", "ß", "SS", "ss", "k", "h", "", "zz"]
+QUERY_URIS = ["x", "X", "y", "z", "w", "xy", "q", "xyzq", "v", "V", "v2", "hu"]
 
 
 def queries():
@@ -244,20 +253,31 @@ def run_unit(unit, ctx):
 
 
 def explore(tier, seed, procs=None):
-    depth = {"quick": 3, "thorough": 4}[tier]
-    ops = all_ops(tier)
     total = Merged()
+    total.levels = []
+    samples = []
+    for phase, (ops, inits, depth) in enumerate(((all_ops(tier), INITS, {"quick": 3, "thorough": 4}[tier]), (all_ops("thorough", aux=True), [[]], {"quick": 3, "thorough": 4}[tier]))):
+        bfs(total, samples, ops, inits, depth, seed, procs, phase)
+        if total.violations or total.errors:
+            break
+    if not total.violations and not total.errors:
+        tla_phase(tier, total)
+    total.samples = samples[:4]
+    total.counters["depth_completed"] = min(l["depth"] for l in total.levels if l["last"]) if total.levels else 0
+    return total
+
+
+def bfs(total, samples, ops, inits, depth, seed, procs, phase):
     seen = set()
     frontier = []
-    for init in INITS:
+    for init in inits:
         case = {"init": [rec_to_json(r) for r in init], "ops": []}
         _, cn, _ = execute(case, None)
         if hash(cn) not in seen:
             seen.add(hash(cn))
             frontier.append(case)
     total.states |= seen
-    samples = []
-    levels = []
+    levels = total.levels
     for level in range(1, depth + 1):
         units = [{"ops": ops, "frontier": ch} for ch in chunks(frontier, 64 if len(frontier) >= 64 else max(1, len(frontier)))]
         from ..engine import run_units as _ru
@@ -277,18 +297,13 @@ def explore(tier, seed, procs=None):
                     seen.add(h)
                     nxt.append(case)
         total.states |= seen
-        levels.append({"depth": level, "frontier_in": len(frontier), "new_states": len(nxt)})
+        levels.append({"phase": phase, "depth": level, "frontier_in": len(frontier), "new_states": len(nxt), "last": level == depth})
         if nxt:
             samples.append(nxt[0])
         frontier = nxt
         if total.violations or total.errors:
             break
-    if not total.violations and not total.errors:
-        tla_phase(tier, total)
-    total.samples = samples[:4]
-    total.counters["depth_completed"] = levels[-1]["depth"] if levels else 0
-    total.levels = levels
-    return total
+    return
 
 
 TLA_DEPTH = {"quick": 2, "thorough": 3}
